@@ -19,7 +19,7 @@ def styleInvalid : Style := { attrs := attrInvalid }
     marks a wide rune just left of the unlocked region dirty so that it is drawn again.  The constant is only the
     *default* of `DrawCfg.guardLocked`: both behaviours stay modelled, the theorems quantify over the configuration, and
     the correspondence driver takes the variant from the case line (`+lg` after the entry name, see Driver/Draw.lean). -/
-def currentGuardsLockedNeighbour : Bool := false
+def currentGuardsLockedNeighbour : Bool := true
 
 /-- static configuration of a screen as far as drawing is concerned -/
 structure DrawCfg where
@@ -110,14 +110,33 @@ def drawCellPlain (c : DrawCfg) (s : Scr) (x y : Int) : Scr × List Cmd × Int :
     let (s2, cmds, wd) := paint c s1 x y
     (s2, g ++ cmds, wd)
 
+/-- start column of the cell that covers column `x - 1` of row `y` in the row-major scan of `draw`: the Go loop
+`px := 0; for cx := 0; cx < x; { w := width(cx, y) (at least 1); px = cx; cx += w }` of the repaired corner trick
+(fix "the corner trick repaints the wide character it clobbered"); fuel = number of columns -/
+def coverStart (cells : Buf) (y : Int) : Nat → Int → Int → Int
+  | 0, cx, _ => cx
+  | fuel + 1, cx, x =>
+    let w := (cells.getContent cx y).2.2.2
+    let w := if w < 1 then 1 else w
+    if cx + w < x then coverStart cells y fuel (cx + w) x else cx
+
+/-- `true`: the tree repaints, after `ich1`, the cell that *covers* the second to last column (the wide character whose
+right half the trick clobbered); `false`: the pinned tree, which always repaints column `x - 1` itself -/
+def currentCornerRepaintsCover : Bool := true
+
+/-- the column repainted after `ich1` in the corner trick -/
+def cornerPx (s1 : Scr) (x y : Int) : Int :=
+  if currentCornerRepaintsCover then coverStart s1.cells y x.toNat 0 x else x - 1
+
 /-- tscreen.go:806 drawCell -/
 def drawCell (c : DrawCfg) (s : Scr) (x y : Int) : Scr × List Cmd × Int :=
   if ¬ s.cells.dirty x y then (s, [], (s.cells.getContent x y).2.2.2)
   else if y = s.h - 1 ∧ x = s.w - 1 ∧ c.cornerTrick then
     -- write what belongs in the last cell one column to the left, shift it into place with ich1, repaint the neighbour
     let (s1, cmds1, wd) := paint c s x y
-    let s2 := { s1 with cy := y, cx := x - 1, cells := s1.cells.setDirty (x - 1) y true }
-    let (s3, cmds3, _) := drawCellPlain c s2 (x - 1) y
+    let px := cornerPx s1 x y
+    let s2 := { s1 with cy := y, cx := x - 1, cells := s1.cells.setDirty px y true }
+    let (s3, cmds3, _) := drawCellPlain c s2 px y
     ({ s3 with cx := 0, cy := 0 },
      [Cmd.goto (x - 1) y] ++ cmds1 ++ [.goto (x - 1) y, .insertChar] ++ cmds3 ++ [.goto 0 0], wd)
   else drawCellPlain c s x y
